@@ -123,8 +123,18 @@ theorem simple_cleanAttrs_idem (p : Policy) (hs : AttrSimple p) (t : Token) (aps
     · rw [simple_sanitizeAttrs p hs]
       simp [List.filter_filter]
 
-/-- what a plain, attribute-simple policy writes is conforming for that policy -/
-theorem emit_conform {p : Policy} (hp : Plain p) (hs : AttrSimple p) {st : LoopState} {t : Token} (hwf : TokWF t)
+/-- the attribute lists `sanitizeAttrs` returns are fixed points of it (for the elements a plain
+    policy can emit, with the rules the policy has for them) -/
+def AttrFix (p : Policy) : Prop :=
+  ∀ (t : Token) (aps : AttrRules) (attrs : List Attr), isRawTagName t.data = false →
+    p.attrRulesFor t.data = some aps → p.cleanAttrs t aps = some attrs →
+    p.cleanAttrs { t with attrs := attrs } aps = some attrs
+
+theorem attrFix_of_simple (p : Policy) (hs : AttrSimple p) : AttrFix p :=
+  fun t aps attrs _ _ h => simple_cleanAttrs_idem p hs t aps attrs h
+
+/-- what a plain policy whose attribute pass has fixed points writes is conforming for that policy -/
+theorem emit_conform {p : Policy} (hp : Plain p) (hs : AttrFix p) {st : LoopState} {t : Token} (hwf : TokWF t)
     {ws : List Write} (he : Emit p st t ws) :
     ∃ toks : List Token, ws.map (·.data) = toks.map Token.render ∧ ∀ k ∈ toks, Conform p k := by
   obtain ⟨toks, hr, hf⟩ := emit_toks hp hwf he
@@ -141,16 +151,16 @@ theorem emit_conform {p : Policy} (hp : Plain p) (hs : AttrSimple p) {st : LoopS
       cases attrs with
       | nil => right; simpa using hbare
       | cons _ _ => left; simp
-    have hidem := simple_cleanAttrs_idem p hs t aps attrs hattrs
-    simp at hr
-    have hk1 : toks.map Token.render = [({ t with attrs := attrs } : Token).render] := hr.symm
-    refine ⟨[{ t with attrs := attrs }], by simp, ?_⟩
-    intro k hk; simp at hk; subst hk
     have hall := attrRulesFor_allows' haps
     have hnr : isRawTagName t.data = false := by
       cases h : isRawTagName t.data with
       | false => rfl
       | true => rw [hp.noRaw _ h] at hall; cases hall
+    have hidem := hs t aps attrs hnr haps hattrs
+    simp at hr
+    have hk1 : toks.map Token.render = [({ t with attrs := attrs } : Token).render] := hr.symm
+    refine ⟨[{ t with attrs := attrs }], by simp, ?_⟩
+    intro k hk; simp at hk; subst hk
     rcases htt with h | h
     · have hw : NameOK' t.data ∧ ∀ a ∈ t.attrs, AttrOK a := by
         unfold TokWF at hwf; rw [h] at hwf; exact hwf
@@ -182,7 +192,7 @@ theorem emit_conform {p : Policy} (hp : Plain p) (hs : AttrSimple p) {st : LoopS
     intro k hk; simp at hk; subst hk; exact ⟨by simp [SegOK], trivial⟩
   | rawText _ hun _ => rw [hp.noUnsafe] at hun; cases hun
 
-theorem run_conform {p : Policy} (hp : Plain p) (hs : AttrSimple p) (ts : List Token) (hwf : ∀ t ∈ ts, TokWF t) :
+theorem run_conform {p : Policy} (hp : Plain p) (hs : AttrFix p) (ts : List Token) (hwf : ∀ t ∈ ts, TokWF t) :
     ∀ st, ∃ toks : List Token, (p.run st ts).1.map (·.data) = toks.map Token.render ∧ ∀ k ∈ toks, Conform p k := by
   induction ts with
   | nil => intro st; exact ⟨[], by simp [Policy.run], by simp⟩
@@ -201,10 +211,10 @@ theorem run_conform {p : Policy} (hp : Plain p) (hs : AttrSimple p) (ts : List T
       · exact hf1 k h
       · exact hf2 k h
 
-/-- **C20 (byte level) for plain, attribute-simple policies**: sanitising the output again
-    returns it unchanged, for every input — escaping is not applied twice, kept tags are kept
-    as they are, nothing is re-ordered. -/
-theorem C20_simple (p : Policy) (hp : Plain p.ensureInit) (hs : AttrSimple p.ensureInit) (input : Bytes) :
+/-- **C20 (byte level) for plain policies whose attribute pass has fixed points**: sanitising
+    the output again returns it unchanged, for every input — escaping is not applied twice, kept
+    tags are kept as they are, nothing is re-ordered. -/
+theorem C20_fix (p : Policy) (hp : Plain p.ensureInit) (hs : AttrFix p.ensureInit) (input : Bytes) :
     p.sanitizeCore (p.sanitizeCore input) = p.sanitizeCore input := by
   obtain ⟨toks, hr, hconf⟩ := run_conform hp hs (tokenize input) (tokenize_wf input) {}
   have hb : p.sanitizeCore input = renderAll toks := by
@@ -212,6 +222,168 @@ theorem C20_simple (p : Policy) (hp : Plain p.ensureInit) (hs : AttrSimple p.ens
     rw [hr, flatten_map_render]
   rw [hb]
   exact C07_bytes p toks hconf
+
+/-- **C20 (byte level) for plain, attribute-simple policies** -/
+theorem C20_simple (p : Policy) (hp : Plain p.ensureInit) (hs : AttrSimple p.ensureInit) (input : Bytes) :
+    p.sanitizeCore (p.sanitizeCore input) = p.sanitizeCore input :=
+  C20_fix p hp (attrFix_of_simple _ hs) input
+
+/-! ### forced crossorigin -/
+
+/-- like `AttrSimple`, but `RequireCrossOriginAnonymous` may be on; no rule attaches a value
+    pattern to `crossorigin` (acceptance of that attribute does not depend on its value) -/
+structure CrossSimple (p : Policy) : Prop where
+  noUrl : p.requireParseableURLs = false
+  noFollow : p.requireNoFollow = false
+  noFollowFQ : p.requireNoFollowFullyQualifiedLinks = false
+  noReferrer : p.requireNoReferrer = false
+  noReferrerFQ : p.requireNoReferrerFullyQualifiedLinks = false
+  noBlank : p.addTargetBlankToFullyQualifiedLinks = false
+  noStyle : ∀ el, p.hasStylePolicies el = false
+  noSandbox : p.requireSandboxOnIFrame = none
+  blind : ∀ el aps, p.attrRulesFor el = some aps → ∀ v v',
+    (p.filterAttr el aps false ⟨b!"crossorigin", v⟩).isSome = (p.filterAttr el aps false ⟨b!"crossorigin", v'⟩).isSome
+
+theorem cross_sanitizeAttrs (p : Policy) (hs : CrossSimple p) (el : Bytes) (attrs : List Attr) (aps : AttrRules) :
+    p.sanitizeAttrs el attrs aps =
+      some (let c := attrs.filter fun a => (p.filterAttr el aps false a).isSome
+            if c.isEmpty then c else p.forceCrossOrigin el c) := by
+  unfold Policy.sanitizeAttrs
+  split
+  · rename_i h; simp [List.isEmpty_iff.mp h]
+  · simp only [hs.noStyle el, filterMap_eq_filter]
+    split
+    · rename_i h; simp [h]
+    · rename_i h
+      unfold Policy.linkPasses Policy.forceSandbox
+      simp [hs.noUrl, hs.noFollow, hs.noFollowFQ, hs.noReferrer, hs.noReferrerFQ, hs.noBlank, hs.noSandbox, h]
+
+theorem setVal_co_idem (a : Attr) :
+    setVal b!"crossorigin" (fun _ => b!"anonymous") (setVal b!"crossorigin" (fun _ => b!"anonymous") a) =
+      setVal b!"crossorigin" (fun _ => b!"anonymous") a := by
+  unfold setVal
+  split
+  · rename_i h; simp [h]
+  · rename_i h; simp [h]
+
+/-- **the forced crossorigin pass has fixed points**: what `sanitizeAttrs` returns under a
+    `CrossSimple` policy is returned unchanged when it is given back -/
+theorem cross_sanitizeAttrs_idem (p : Policy) (hs : CrossSimple p) (el : Bytes) (attrs out : List Attr) (aps : AttrRules)
+    (haps : p.attrRulesFor el = some aps) (h : p.sanitizeAttrs el attrs aps = some out) :
+    p.sanitizeAttrs el out aps = some out := by
+  rw [cross_sanitizeAttrs p hs] at h ⊢
+  simp only [Option.some.injEq] at h ⊢
+  generalize hacc : (fun a => (p.filterAttr el aps false a).isSome) = acc at h ⊢
+  generalize hc : attrs.filter acc = c at h
+  have hcacc : ∀ a ∈ c, acc a = true := by
+    intro a ha; rw [← hc] at ha; exact (List.mem_filter.mp ha).2
+  have hfc : c.filter acc = c := List.filter_eq_self.mpr hcacc
+  have hblind : ∀ v v', acc ⟨b!"crossorigin", v⟩ = acc ⟨b!"crossorigin", v'⟩ := by
+    intro v v'; rw [← hacc]; exact hs.blind el aps haps v v'
+  by_cases hce : c.isEmpty = true
+  · simp only [hce, ↓reduceIte] at h
+    subst h
+    have : c = [] := List.isEmpty_iff.mp hce
+    subst this
+    rfl
+  · simp only [hce, Bool.false_eq_true, ↓reduceIte] at h
+    have hcne : c ≠ [] := fun hn => hce (by rw [hn]; rfl)
+    have hclen : c.length > 0 := List.length_pos_iff.mpr hcne
+    unfold Policy.forceCrossOrigin at h
+    by_cases hcond : (p.requireCrossOriginAnonymous && decide (c.length > 0) && isCrossOriginElement el) = true
+    · simp only [hcond, ↓reduceIte] at h
+      have hreq : p.requireCrossOriginAnonymous = true := by
+        simp only [Bool.and_eq_true] at hcond; exact hcond.1.1
+      have hel : isCrossOriginElement el = true := by
+        simp only [Bool.and_eq_true] at hcond; exact hcond.2
+      by_cases hany : c.any (·.key == b!"crossorigin") = true
+      · -- the value of the existing crossorigin attribute(s) is overwritten in place
+        simp only [hany, ↓reduceIte] at h
+        subst h
+        have hacc' : ∀ a ∈ c.map (setVal b!"crossorigin" fun _ => b!"anonymous"), acc a = true := by
+          intro a ha
+          simp only [List.mem_map] at ha
+          obtain ⟨a0, ha0, rfl⟩ := ha
+          unfold setVal
+          split
+          · rename_i hk
+            have hk' : a0.key = b!"crossorigin" := by simpa using hk
+            have : a0 = ⟨b!"crossorigin", a0.val⟩ := by cases a0; simp_all
+            rw [hk', hblind _ a0.val, ← this]
+            exact hcacc a0 ha0
+          · exact hcacc a0 ha0
+        rw [List.filter_eq_self.mpr hacc']
+        have hne : (c.map (setVal b!"crossorigin" fun _ => b!"anonymous")).isEmpty = false := by
+          cases c with
+          | nil => exact absurd rfl hcne
+          | cons _ _ => rfl
+        simp only [hne, Bool.false_eq_true, ↓reduceIte]
+        unfold Policy.forceCrossOrigin
+        have hany' : (c.map (setVal b!"crossorigin" fun _ => b!"anonymous")).any (·.key == b!"crossorigin") = true := by
+          simp only [List.any_map, List.any_eq_true, Function.comp] at hany ⊢
+          obtain ⟨a, ha, hk⟩ := hany
+          refine ⟨a, ha, ?_⟩
+          unfold setVal; split <;> simpa using hk
+        simp only [hreq, hel, List.length_map, hclen, decide_true, Bool.and_self, ↓reduceIte, hany', List.map_map]
+        apply List.map_congr_left
+        intro a _
+        exact setVal_co_idem a
+      · -- crossorigin="anonymous" is appended
+        simp only [hany, Bool.false_eq_true, ↓reduceIte] at h
+        subst h
+        rw [List.filter_append, hfc]
+        have hnoco : ∀ a ∈ c, (a.key == b!"crossorigin") = false := by
+          intro a ha
+          cases hk : a.key == b!"crossorigin" with
+          | false => rfl
+          | true => exact absurd (List.any_eq_true.mpr ⟨a, ha, hk⟩) hany
+        by_cases hlast : acc ⟨b!"crossorigin", b!"anonymous"⟩ = true
+        · simp only [List.filter_cons, hlast, ↓reduceIte, List.filter_nil]
+          have hne : (c ++ [(⟨b!"crossorigin", b!"anonymous"⟩ : Attr)]).isEmpty = false := by
+            cases c <;> rfl
+          simp only [hne, Bool.false_eq_true, ↓reduceIte]
+          unfold Policy.forceCrossOrigin
+          have hany' : (c ++ [(⟨b!"crossorigin", b!"anonymous"⟩ : Attr)]).any (·.key == b!"crossorigin") = true := by
+            simp [List.any_append]
+          have hlen : (c ++ [(⟨b!"crossorigin", b!"anonymous"⟩ : Attr)]).length > 0 := by simp
+          simp only [hreq, hel, hlen, decide_true, Bool.and_self, ↓reduceIte, hany', List.map_append, List.map_cons,
+            List.map_nil]
+          congr 1
+          · rw [List.map_congr_left (g := id)]
+            · simp
+            · intro a ha
+              unfold setVal
+              simp [hnoco a ha]
+        · simp only [List.filter_cons, hlast, Bool.false_eq_true, ↓reduceIte, List.filter_nil, List.append_nil, hce]
+          unfold Policy.forceCrossOrigin
+          simp only [hcond, ↓reduceIte, hany, Bool.false_eq_true]
+    · -- nothing is forced for this element
+      simp only [hcond, Bool.false_eq_true, ↓reduceIte] at h
+      subst h
+      rw [hfc]
+      simp only [hce, Bool.false_eq_true, ↓reduceIte]
+      unfold Policy.forceCrossOrigin
+      simp only [hcond, Bool.false_eq_true, ↓reduceIte]
+
+theorem attrFix_of_cross (p : Policy) (hs : CrossSimple p) : AttrFix p := by
+  intro t aps attrs _ haps h
+  unfold Policy.cleanAttrs at h ⊢
+  split at h
+  · simp at h; subst h; simp_all
+  · simp only
+    split
+    · rename_i he
+      have : attrs = [] := List.isEmpty_iff.mp he
+      subst this; rfl
+    · exact cross_sanitizeAttrs_idem p hs t.data t.attrs attrs aps haps h
+
+/-- **C20 (byte level) with forced crossorigin**: for every plain policy that does no URL checking
+    and has no style rules, with or without `RequireCrossOriginAnonymous`, and whose rules attach no
+    value pattern to `crossorigin`, sanitising the output again returns it unchanged — the forced
+    attribute is neither repeated nor moved -/
+theorem C20_crossorigin (p : Policy) (hp : Plain p.ensureInit) (hs : CrossSimple p.ensureInit) (input : Bytes) :
+    p.sanitizeCore (p.sanitizeCore input) = p.sanitizeCore input :=
+  C20_fix p hp (attrFix_of_cross _ hs) input
 
 /-- non-vacuity: a policy with elements, attributes and a pattern rule that is plain and
     attribute-simple -/
@@ -224,5 +396,29 @@ example :
   simp [Policy.hasStylePolicies, Policy.ensureInit, Map.get?]
 
 example : addRelToken true b!"nofollow" (addRelToken true b!"nofollow" b!"author") = b!"author nofollow" := by decide
+
+/-- non-vacuity of `C20_crossorigin`: a policy with RequireCrossOriginAnonymous that is in the class;
+    the forced attribute appears once, also on the second pass -/
+example :
+    let p : Policy := { initialized := true, requireCrossOriginAnonymous := true,
+                        elsAndAttrs := [(b!"b", []), (b!"img", [(b!"alt", [none]), (b!"crossorigin", [none])])],
+                        setOfElementsAllowedWithoutAttrs := [b!"b"] }
+    CrossSimple p.ensureInit ∧
+    p.sanitizeCore b!"<img alt=x><b>t</b>" = b!"<img alt=\"x\" crossorigin=\"anonymous\"><b>t</b>" ∧
+    p.sanitizeCore b!"<img crossorigin=use-credentials alt=x>" = b!"<img crossorigin=\"anonymous\" alt=\"x\">" := by
+  refine ⟨⟨rfl, rfl, rfl, rfl, rfl, rfl, ?_, rfl, ?_⟩, by decide, by decide⟩
+  · intro el
+    simp [Policy.hasStylePolicies, Policy.ensureInit, Map.get?]
+  · intro el aps h v v'
+    have haps : aps = [] ∨ aps = [(b!"alt", [none]), (b!"crossorigin", [none])] := by
+      simp only [Policy.ensureInit, Policy.attrRulesFor, Map.get?, Policy.matchRegex, ↓reduceIte] at h
+      by_cases h1 : (b!"b" == el) = true
+      · simp only [h1, ↓reduceIte] at h; cases h; exact .inl rfl
+      · by_cases h2 : (b!"img" == el) = true
+        · simp only [h1, h2, ↓reduceIte] at h; cases h; exact .inr rfl
+        · simp [h1, h2] at h
+    rcases haps with rfl | rfl
+    · simp [Policy.filterAttr, Policy.ensureInit, Map.get?]
+    · simp [Policy.filterAttr, Policy.ensureInit, Map.get?, attrPoliciesAccept]
 
 end BM.Props
